@@ -56,6 +56,11 @@ struct Spec {
     list_types: u8,
     /// transports hints on list descriptors
     list_hints: bool,
+    /// before this step the same kind of command is started on the same route and abandoned while the
+    /// user is being asked (its future is dropped): a transport cancel, a timeout
+    abandon_first: bool,
+    /// entity display strings: 0 short, 1 a 100-character name, 2 thirty CJK characters, 3 absent / empty
+    names: u8,
 }
 
 fn gen(seed: u64, idx: u64) -> Spec {
@@ -111,13 +116,15 @@ fn gen(seed: u64, idx: u64) -> Spec {
         pin_protocol: *rng.pick(&[None, None, None, None, Some(1u8), Some(2), Some(0)]),
         list_types: *rng.pick(&[0u8, 0, 0, 1, 2]),
         list_hints: rng.chance(1, 4),
+        abandon_first: rng.chance(1, 6),
+        names: *rng.pick(&[0u8, 0, 0, 1, 2, 3]),
     }
 }
 
 fn spec_json(s: &Spec) -> Value {
     json!({"op": format!("{:?}", s.op), "store": format!("{:?}", s.store), "config": s.cfg.json(), "capability": format!("{:?}", s.disc),
         "uv_outcome": format!("{:?}", s.uv_outcome), "verification_capability": s.ver_cap, "rp": s.rp, "seeded_credentials": s.n_seeded,
-        "list": s.list, "algs": s.algs, "rk": s.rk, "up": s.up, "uv": s.uv, "prf": s.prf, "pin_auth": s.pin_auth, "client_data_hash_len": s.cdh_len, "hmac_secret_flag": s.hmac_secret_flag, "pin_protocol": s.pin_protocol, "list_descriptor_types": s.list_types, "list_transport_hints": s.list_hints})
+        "list": s.list, "algs": s.algs, "rk": s.rk, "up": s.up, "uv": s.uv, "prf": s.prf, "pin_auth": s.pin_auth, "client_data_hash_len": s.cdh_len, "hmac_secret_flag": s.hmac_secret_flag, "pin_protocol": s.pin_protocol, "list_descriptor_types": s.list_types, "list_transport_hints": s.list_hints, "a_command_is_abandoned_first": s.abandon_first, "entity_names": s.names})
 }
 
 pub fn describe(args: &Args, idx: u64) -> CaseDesc {
@@ -165,11 +172,32 @@ fn run_route<S>(base: &Spec, more: &[Spec], flips: &[Option<Disc>], store: S, vi
 where
     S: CredentialStore<PasskeyItem = Passkey> + Sync + Send,
 {
+    let uv_handle = uv.clone();
     let mut auth = mk_auth(store, uv, base.cfg);
     let mut out = Vec::new();
     for (j, s) in std::iter::once(base).chain(more.iter()).enumerate() {
         if let Some(Some(d)) = flips.get(j) {
             set_disc(&mut auth, *d);
+        }
+        if s.abandon_first && s.op != OpKind::Info {
+            // start a command on this route, let it reach the user prompt, drop it
+            uv_handle.set_yields(2);
+            if s.op == OpKind::Make {
+                let req = mc_request(s.rp, b"abandoned", &[1u8; 32], vec![pk_param(coset::iana::Algorithm::ES256)], None, None, false, true, false);
+                if via_trait {
+                    let _ = crate::exec::poll_n_then_drop(Ctap2Api::make_credential(&mut auth, req), 1);
+                } else {
+                    let _ = crate::exec::poll_n_then_drop(auth.make_credential(req), 1);
+                }
+            } else {
+                let req = ga_request(s.rp, &[1u8; 32], None, None, true, false);
+                if via_trait {
+                    let _ = crate::exec::poll_n_then_drop(Ctap2Api::get_assertion(&mut auth, req), 1);
+                } else {
+                    let _ = crate::exec::poll_n_then_drop(auth.get_assertion(req), 1);
+                }
+            }
+            uv_handle.set_yields(0);
         }
         out.push(run_step(s, &mut auth, via_trait, snapshot, ids));
     }
@@ -199,6 +227,24 @@ where
             });
             let params = s.algs.iter().map(|a| { use coset::iana::EnumI64; pk_param(coset::iana::Algorithm::from_i64(*a).unwrap()) }).collect();
             let mut req = mc_request(s.rp, b"user-x", &vec![7u8; s.cdh_len], params, exclude, ext, s.rk, s.up, s.uv);
+            match s.names {
+                1 => {
+                    req.rp.name = Some("r".repeat(100));
+                    req.user.name = format!("{}@example.com", "u".repeat(100));
+                    req.user.display_name = "d".repeat(100);
+                }
+                2 => {
+                    req.rp.name = Some("\u{4f1a}\u{793e}".repeat(15));
+                    req.user.name = "\u{540d}\u{524d}".repeat(15);
+                    req.user.display_name = "\u{8868}\u{793a}\u{540d}".repeat(10);
+                }
+                3 => {
+                    req.rp.name = None;
+                    req.user.name = String::new();
+                    req.user.display_name = String::new();
+                }
+                _ => {}
+            }
             req.pin_protocol = s.pin_protocol;
             if s.pin_auth {
                 req.pin_auth = Some(vec![1, 2].into());
@@ -284,6 +330,7 @@ pub fn iso_case(args: &Args, idx: u64) -> CaseOut {
     let ids: Vec<Vec<u8>> = creds.iter().map(|c| c.credential_id.to_vec()).collect();
     let mut out = CaseOut { class: format!("{:?}", s.op), ..Default::default() };
     let mut routes: Vec<Vec<Digest>> = Vec::new();
+    let mut save_args: Vec<Vec<String>> = Vec::new();
     for via_trait in [false, true] {
         let rig = Rig::new(s.disc, s.uv_outcome, s.ver_cap);
         let d = match s.store {
@@ -292,7 +339,9 @@ pub fn iso_case(args: &Args, idx: u64) -> CaseOut {
                     rig.store.insert_raw(c.clone());
                 }
                 let h = rig.store.clone();
-                run_route(&s, &more, &flips, rig.store.clone(), via_trait, &move |_| h.snapshot(), rig.uv.clone(), &ids, &|a, d| a.store_mut().disc = d)
+                let d = run_route(&s, &more, &flips, rig.store.clone(), via_trait, &move |_| h.snapshot(), rig.uv.clone(), &ids, &|a, d| a.store_mut().disc = d);
+                save_args.push(rig.log.snapshot().iter().filter_map(|e| if let crate::collab::Ev::Save { rp_entity, user_entity, names, rk, up, uv, .. } = &e.ev { Some(format!("rp {rp_entity:?} user {} names {names:?} options rk={rk} up={up} uv={uv}", hex_short(user_entity))) } else { None }).collect::<Vec<String>>());
+                d
             }
             StoreKind::Memory => {
                 let mut m = MemoryStore::new();
@@ -310,6 +359,10 @@ pub fn iso_case(args: &Args, idx: u64) -> CaseOut {
         routes.push(d);
     }
     let case = json!({"index": idx, "spec": spec_json(&s), "following_steps": more.iter().map(spec_json).collect::<Vec<_>>(), "capability_flips": flips.iter().map(|f| f.map(|d| format!("{d:?}"))).collect::<Vec<_>>()});
+    if save_args.len() == 2 && save_args[0] != save_args[1] {
+        let first = save_args[0].iter().zip(&save_args[1]).find(|(a, b)| a != b).map(|(a, b)| format!("direct {a} / trait {b}")).unwrap_or_else(|| format!("{} vs {} save calls", save_args[0].len(), save_args[1].len()));
+        out.violations.push(("Ctap2Api::make_credential: effect on the store differs from the direct method (arguments handed to save_credential)".into(), first.chars().take(600).collect(), case.clone()));
+    }
     let all: Vec<&Spec> = std::iter::once(&s).chain(more.iter()).collect();
     for (j, sp) in all.iter().enumerate() {
         let (direct, routed) = (&routes[0][j], &routes[1][j]);
